@@ -119,7 +119,7 @@ def step (st : State) (toks : List String) : State × String :=
   | ["rev"] => (st, s!"rev {st.g.committed}")
   | ["dump"] => (st, s!"dump {dumpStr st.g.store}")
   | ["get", k, r] =>
-    let (hdr, kv) := doGet st.g.cfg (viewB st.g) (unhx k) (atou r)
+    let (hdr, kv) := doGet st.g.cfg (viewB st.g) (unhx k) (relRev st.g.committed r)
     (st, s!"get {hdr} {okvStr kv}")
   | ["list", a, b, r, lim] =>
     match doList st.g.cfg (viewB st.g) (unhx a) (unhx b) (atou r) (atou lim) with
